@@ -121,11 +121,12 @@ def run(prop, tier, seed, repo):
         cov["distinct_nontrivial"] = len(nontrivial)
         cov["traces_validated_against_impl"] = len(sessions)
         cov["exhaustive"] = tier != "quick"
-        cov["rule"] = ("ordered selections of <= 3 games from a pool of 6 (solvable with / without dead branches, "
-                       "unsolvable, two malformed) under 3 name sets, plus the key-collision dictionary; %s; each "
+        cov["rule"] = ("ordered selections of <= 3 games from the pool of Gen_Batch.tla (solvable with / without dead "
+                       "branches, unsolvable, malformed) under 4 name sets, plus the fixed dictionaries (key collision, twins, "
+                       "own flags, scale, twin edges, sure orphan); %s; each "
                        "is written as a file in one of two textual styles, read back, run through run_games, saved, "
                        "and run through the command line; non-trivial = at least two games; distinct = distinct "
-                       "(names, kinds)" % ("a TLC sample of %d" % k if tier == "quick" else "all 765 + 1"))
+                       "(names, kinds)" % ("a TLC sample of %d" % k if tier == "quick" else "all of them"))
         s0 = sessions[len(sessions) // 2]
         cov["samples"] = [{"names": s0["names"], "kinds": s0["kinds"], "file": s0["file"],
                            "entries": [{"key": e["key"], "msg": e["msg"]} for e in s0["out"]["entries"]],
